@@ -215,11 +215,14 @@ Section Steps.
   Definition is_full (s : st) : bool := Nat.eqb (qlen s) cap.
 
   (* ---- try_send_core, from the acquisition up to its first traced event *)
+  (* GHOST: the retry a signalled sender owed has come to its decision (push / Full / Closed) *)
+  Definition owe_s_done (s : st) (t : nat) : st := set_owedS s (remove1 t (owedS s)).
+
   Definition ts_enter (s : st) (t : nat) (k : sctx) : st :=
-    if Nat.eqb (rcnt s) 0 then set_pc s t (SUnlock k SClosed)
+    if Nat.eqb (rcnt s) 0 then set_pc (owe_s_done s t) t (SUnlock k SClosed)
     else if negb (isnil (wr s)) && negb (is_full s) then set_pc s t (SScan k 0)
-    else if Nat.ltb (qlen s) cap then set_pc (push s (cur_id s t)) t (SUnlock k SOk)
-    else set_pc s t (SUnlock k SFull).
+    else if Nat.ltb (qlen s) cap then set_pc (push (owe_s_done s t) (cur_id s t)) t (SUnlock k SOk)
+    else set_pc (owe_s_done s t) t (SUnlock k SFull).
 
   (* ---- try_recv_core, from the acquisition up to its first traced event *)
   Definition tr_enter (s : st) (t : nat) (k : rctx) : st :=
@@ -260,7 +263,7 @@ Section Steps.
     | SLock k =>
         match lk s with
         | Some _ => None
-        | None => Some (ts_enter (set_owedS (set_lk s (Some t)) (remove1 t (owedS s))) t k, ELock)
+        | None => Some (ts_enter (set_lk s (Some t)) t k, ELock)
         end
     | SScan k i =>
         match nth_error (wr s) i with
@@ -268,10 +271,10 @@ Section Steps.
         | Some (u, g) =>
             let '(s1, e, ok) := cas_entry s u g FSuccess in
             if ok then
-              Some (set_pc (push (set_owedR (set_wr s1 (remove_nth i (wr s))) (u :: owedR s)) (cur_id s t)) t (SUnpark k u), e)
+              Some (set_pc (push (owe_s_done (set_owedR (set_wr s1 (remove_nth i (wr s))) (u :: owedR s)) t) (cur_id s t)) t (SUnpark k u), e)
             else if Nat.ltb (S i) (length (wr s)) then ret s1 t (SScan k (S i)) e
-            else if Nat.ltb (qlen s) cap then Some (set_pc (push s1 (cur_id s t)) t (SUnlock k SOk), e)
-            else ret s1 t (SUnlock k SFull) e
+            else if Nat.ltb (qlen s) cap then Some (set_pc (push (owe_s_done s1 t) (cur_id s t)) t (SUnlock k SOk), e)
+            else ret (owe_s_done s1 t) t (SUnlock k SFull) e
         end
     | SUnpark k u => ret (set_tok s u true) t (SUnlock k SOk) (EUnpark u)
     | SUnlock k r =>
@@ -572,12 +575,12 @@ Definition skeleton : list (fn * list row) :=
     (FnSenderSend, [ closed_ld; call FnSendSync ]);
     (FnSenderTrySend, [ closed_ld; call FnTrySendCore ]);
     (FnSenderClose, [ (SvClosed, KCas, Some o_close_cas, Some o_close_casf); call FnSenderCloseInternal ]);
-    (FnSenderCloseInternal, [ lock_row; wake_cas; wake_cas; call FnWakeRefWake ]);
+    (FnSenderCloseInternal, [ lock_row; wake_cas; wake_cas; (SvNone, KWakerWake, None, None) ]);
     (FnSenderDrop, [ call FnSenderClose ]);
     (FnReceiverRecv, [ closed_ld; call FnRecvSync ]);
     (FnReceiverTryRecv, [ closed_ld; call FnTryRecvCore ]);
     (FnReceiverRecvTimeout, [ closed_ld; call FnRecvTimeoutSync ]);
     (FnReceiverClose, [ (SvClosed, KCas, Some o_close_cas, Some o_close_casf); call FnReceiverCloseInternal ]);
-    (FnReceiverCloseInternal, [ lock_row; wake_cas; wake_cas; wake_cas; wake_cas; call FnWakeRefWake ]);
+    (FnReceiverCloseInternal, [ lock_row; wake_cas; wake_cas; wake_cas; wake_cas; (SvNone, KWakerWake, None, None) ]);
     (FnReceiverDrop, [ call FnReceiverClose ]);
     (FnWakeRefWake, [ (SvNone, KUnpark, None, None); (SvNone, KWakerWake, None, None) ]) ].
